@@ -136,7 +136,7 @@ RunResult run_w3(const Plan& pl) {
                 if (pass == 1) res.sim_iterations++;
                 // bookkeeping
                 std::set<unsigned> ids; size_t gone = 0; std::vector<uint64_t> pop;
-                for (size_t i = 0; i < L.size(); i++) { if (L[i]->get_local_id() != i) { res.fail("C08", "local_id", "position index != list position after cell_divider::run"); break; } if (!ids.insert(L[i]->get_id()).second) { res.fail("C15", "division.duplicate_id", "two cells share an id after simultaneous divisions"); break; } pop.push_back(surface_hash(*L[i])); }
+                for (size_t i = 0; i < L.size(); i++) { if (L[i]->get_local_id() != i) { res.fail("C08", "local_id", "position index != list position after cell_divider::run"); break; } if (!ids.insert(L[i]->get_id()).second) { res.fail("C15", "division.duplicate_id", "two cells share an id after simultaneous divisions"); res.fail("C09", "daughter_ids_unique", "two cells share an id after the divisions of one iteration (daughters must get fresh unique ids)"); res.fail("C08", "id_unique", "two cells share an id after cell_divider::run"); break; } pop.push_back(surface_hash(*L[i])); }
                 for (size_t k = 0; k < B.cells.size(); k++) { bool present = ids.count(M[k].id) && false; for (auto& c : L) if (c.get() == B.cells[k].get()) present = true; if (!present) { gone++; if (!B.is_mother[k]) res.fail("C09", "bystander_removed", "a cell that was not ready to divide left the population"); } else if (!B.is_mother[k] && bit_hash(*B.cells[k]) != bits[k]) res.fail("C09", "bystander_changed", "a cell that did not divide was modified by the division phase"); else if (B.is_mother[k] && surface_hash(*B.cells[k]) != M[k].surf) res.fail("C09", "failed_division_untouched", "a mother that stayed in the population has a changed surface"); }
                 if (L.size() != B.cells.size() + gone) { std::ostringstream d; d << gone << " mothers left, population went from " << B.cells.size() << " to " << L.size(); res.fail(pass ? "C15" : "C09", "division.count", d.str()); }
                 for (auto& c : L) if (c->get_id() >= max_before) { if (c->get_id() >= max_id) res.fail("C08", "id_counter", "a daughter id is not below the advanced id counter"); TopoOpts o; o.volume_before = 1e300; std::string e = check_topology(*c, o); if (!e.empty()) { res.fail("C09", "daughter_" + e.substr(0, e.find(':')), "daughter after cell_divider::run: " + e); break; } }
